@@ -53,7 +53,9 @@ def run(ctx):
     runs = read_ndjson(table, 3)
     ctx.sample({"kind": "runs of the membership table", "runs": [x for x in runs if x["ev"] == "run"][:2]})
     ctx.cov["traces_validated_against_impl"] = s["runs"]
-    ctx.cov["evaluations"] = s["checked_by_name"] + s["checked_vm_and_generated"] + 1112064 * len(adv)
+    ctx.cov["evaluations"] = s["checked_by_name"] + s["checked_vm_and_generated"] + s.get("checked_group_or_name", 0) + 1112064 * len(adv)
+    ctx.cov["engines"].append({"name": "two properties in one expression", "role": "every rule `GROUP | NAME` and `NAME | GROUP` (8 grouped categories x all names) through the real "
+                               "front-end and the VM on sampled characters: matches iff one of the two does", "parses": s.get("checked_group_or_name", 0)})
     ctx.cov["distinct_nontrivial"] = s["runs"]
     ctx.cov["table"] = s
     ctx.cov["exhaustive"] = not quick
